@@ -56,6 +56,7 @@ func runStressInChild(r *hx.Run) {
 		err = fmt.Errorf("killed after %s", childTimeout)
 	}
 	if err != nil {
+		lastRound := "" // the round the child was in when it died
 		// the side file has what was observed before the process died: the failing cases are rebuilt from it (a
 		// `stress <kind> <seed>` line followed by the logs judged so far), so that every finding keeps its failing input
 		if f, e := os.Open(filepath.Join(dir, "findings.jsonl")); e == nil {
@@ -66,6 +67,11 @@ func runStressInChild(r *hx.Run) {
 			for sc.Scan() {
 				var rec sideRec
 				if json.Unmarshal(sc.Bytes(), &rec) != nil {
+					continue
+				}
+				if rec.Marker != "" {
+					lastRound = rec.Marker
+
 					continue
 				}
 				key := ""
@@ -108,8 +114,15 @@ func runStressInChild(r *hx.Run) {
 		} else if strings.Contains(msg, "deadlock") || strings.Contains(msg, "asleep") {
 			kind = "crash-deadlock"
 		}
-		r.Fail("crash", fmt.Sprintf("the stress rounds died (%v): %s", err, firstLines(msg, 6)),
-			map[string]string{"oracle": kind, "mode": "stress"})
+		sig := map[string]string{"oracle": kind, "mode": "stress"}
+		if lf := strings.Fields(lastRound); len(lf) >= 3 {
+			// the crash gets the round it happened in as its failing input
+			seed, _ := strconv.ParseUint(lf[2], 10, 64)
+			r.Case(seed)
+			r.Line(lastRound, "ok")
+			sig["kind"] = lf[1]
+		}
+		r.Fail("crash", fmt.Sprintf("the stress rounds died (%v) in round %q: %s", err, lastRound, firstLines(msg, 6)), sig)
 
 		return
 	}
@@ -369,6 +382,9 @@ func main() {
 	// itself starts - OnUpdateOnce's `go unsubscribe()` - cannot be recovered)
 	runStressInChild(r)
 	n := 8000 * r.Scale
+	if r.Scale > 1 {
+		n = n * 3 / 4 // thorough: 120 000 + 30 000 + 30 000 sequential cases (race detector on; the tier has to fit into 20 minutes)
+	}
 	for i := 0; i < n; i++ {
 		rng, sub := r.Rng.Fork()
 		runSeqCase(r, sub, genSeqCase(rng, 28))
